@@ -93,6 +93,7 @@ UNIT_FALLBACK = {
     "compgraph": _SLICE_FALLBACK,
     "buildstep": [],
     "buildnode": [],
+    "noexts": [],
 }
 
 def lmer(fams, tier, ks=None):
@@ -247,6 +248,7 @@ GRAPH_TRUST = [
     "canon(s) is s or rc(s) and canon(rc s) == canon(s) (axiom_canon; the real min_rc / min_rc_flip are proved to compute the lexicographic minimum by Kani family k_min_rc)",
 ]
 
+COMPGRAPH_FNS = r"^CompressFromGraph::|^Node::(len|data)$|^BaseGraph::(new|add)$|^lemma_(npush|rel_push|nfold_ids)$"
 # unit buildnode: everything except the k-mer level core it re-includes (that is counted once, in unit compress)
 BUILDNODE_FNS = r"^(?!CompressFromHash::(extend_kmer|try_extend_kmer|get_kmer_data|get_kmer_id)$|Dir::|Exts::)"
 
@@ -257,31 +259,35 @@ PROPS["C01"] = {
     "verus": [("compress", r"^CompressFromHash::(extend_kmer|try_extend_kmer|get_kmer_data|get_kmer_id)$"),
               ("buildstep", r"^CompressFromHash::(left_step|right_step|left_terminal|right_terminal)$"),
               ("buildnode", BUILDNODE_FNS),
+              ("noexts", r"^derive_exts$"),
               ("packedset", r"^PackedDnaStringSet::(get|len|new)$")],
     "bounded": lambda tier: [("dna_string::verif::d_packed_add_b", "PackedDnaStringSet::add x2 (5 and 3 bases) then get")],
     "design_ref": "DESIGN.md §6 C01 (as-built note in the section-6 preamble)",
     "undecided": [
-        "the composition: build_node's loops over the walked path (reference patterns `for &(k, d) in path.iter()` are outside the Verus subset; only the loop BODIES and the two terminal-extension statements are under contract), and compress_kmers' outer loop over seeds - hence 'each input k-mer occurs in exactly one node at exactly one offset' and 'no node contains a foreign k-mer' are NOT decided as whole-run statements",
-        "BaseGraph::add / PackedDnaStringSet::add (generic IntoIterator + Borrow): bounded stand-in only",
-        "the entry points compress_kmers (from a sorted slice) and compress_kmers_no_exts (observed while reading: it canonicalises neighbours with min_rc even when stranded) are not under contract",
+        "entry points other than CompressFromHash::compress_kmers / compress_kmers_with_hash: the public compress_kmers (from a sorted slice: builds the BoomHashMap2 with destructuring reference patterns, then calls the proved function) and compress_kmers_no_exts (HashSet built with iterator adapters) are not under contract as wholes; of compress_kmers_no_exts the derivation of each k-mer's extension byte IS (unit noexts, rule R15: base b is recorded on a side exactly when the canonical form of the neighbour through b is in the given set; observed while reading: it canonicalises with min_rc even when stranded)",
+        "'an extension recorded for BOTH of them': proved for the k-mer the walk steps FROM (the base is in its extension set, and is its sole extension on that side) and as 'exactly one extension on the facing side' for the k-mer stepped TO; that this one facing extension names the first k-mer is a property of the input table (extension symmetry), which the code does not check",
+        "BaseGraph::finish (boomphf index construction over the node ends) and PackedDnaStringSet::add (generic IntoIterator + Borrow; bounded stand-in only) are outside the Verus subset: the statement is about the node sequences handed to BaseGraph::add, the accessors that read them back are proved in unit packedset",
         "bounded cross-check of the whole pipeline is intractable: boomphf's MPHF construction keeps CBMC busy > 50 min even for 3 concrete keys"],
     "trust": VERUS_TRUST + GRAPH_TRUST + [SEAM_NOTE,
         "CompressionSpec::join_test / reduce are deterministic functions of their arguments (join_spec, reduce_spec)",
-        "precondition backlinks_ok (extensions reference only present k-mers, symmetrically)"],
-    "level_text": "Partial claim - the MECHANISM of the statement, step by step, on the real code (Verus, unbounded): (1) a walk only ever steps along a link that is the sole extension on both facing sides between two distinct non-palindromic table k-mers accepted by the join predicate ('every step between consecutive k-mers of a node follows an extension recorded for both of them': try_extend_kmer iff + extend_kmer's step_ok for every path element); (2) exactly the seed and the walked k-mers leave the available set, each was available when taken - so no k-mer is placed on two paths of the same or of different walks (extend_kmer's frame); (3) each path step adds exactly one base to the node sequence - the first (left walk) resp. last (right walk) base of that step's k-mer as spelled on the seed's strand - and folds exactly that k-mer's payload with the caller's reduction (bodies of build_node's two path loops); (4) stored sequences are returned unchanged by index (PackedDnaStringSet::get).",
-    "level_note": "PARTIAL: the composition of these steps into the whole-run partition statement is not decided (see undecided_clauses). Trusted: Verus/Z3, extractor rules (R15 loop-body extraction), abstract BoomHashMap2/BitSet contracts, the V<->K seam.",
+        "precondition backlinks_ok (extensions reference only present k-mers, symmetrically); precondition canon_keys (an unstranded table stores canonical k-mers)",
+        "std: iterating &VecDeque<u8> yields its elements front to back (axiom_iter_seq_deque); D::clone is only known through vstd's `cloned` relation",
+        "PackedDnaStringSet is abstract in unit buildnode (list of stored sequences; `add` appends the iterated bases): its accessors are proved on the real struct in unit packedset, `add` by the bounded Kani harness d_packed_add_b only"],
+    "level_text": "The statement is a machine-checked POSTCONDITION of the real CompressFromHash::compress_kmers (Verus, unbounded, bodies extracted from /repo on every run; graph_post in verus/units/buildnode.rs.tmpl): there is an assignment owner[j][o] of table slots to (node j, offset o) such that (a) window o of node j, canonicalised when unstranded, IS the table key of slot owner[j][o] - no foreign k-mer; (b) different positions hold different slots and every slot occurs - each input k-mer in exactly one node at exactly one offset; (c) a node of m k-mers has m+K-1 bases and consecutive windows are linked by an extension recorded for the k-mer nearer the seed, the sole extension on both facing sides; (d) each node's payload is the caller's reduction folded over exactly the payloads of the slots the node spells (seed first, then leftwards, then rightwards). It rests on contracts of every function in between, all on real bodies: try_extend_kmer (link predicate, iff), extend_kmer (every step a link; exactly the seed and the walked k-mers leave the available set), the WHOLE of build_node (both walks, both assembly loops over the walked path, terminal extensions; rules R16/R17), BaseGraph::new/add; and on a ghost theory (orientation chain on the seed's strand, windows of the spelled sequence, slot bookkeeping) proved as lemmas in the same run.",
+    "level_note": "Preconditions: the table is well formed (distinct keys of K bases), its keys are canonical when unstranded, and extensions reference only present k-mers symmetrically (backlinks_ok; makes the unreachable!() branch unreachable). Assumed, not proved: boomphf BoomHashMap2 lookup/get_key, bit_set::BitSet, PackedDnaStringSet::add with iteration over &VecDeque (bounded Kani stand-in), D::clone (vstd `cloned` relation), the trait-level Kmer seam (discharged per shipped type by Kani). Entry points other than the from-hash one are listed under undecided_clauses.",
 }
 
 PROPS["C02"] = {
     "title": "Nodes are exactly the maximal unbranched paths",
     "kani": lambda tier: kfam(["k_min_rc", "k_extend_left", "k_extend_right"], tier)
         + exts(["x_num_ext_dir", "x_get_unique_extension", "x_single_dir", "x_has_ext", "x_dir"]),
-    "verus": [("compress", None), ("buildstep", r"^CompressFromHash::(left_step|right_step|left_terminal|right_terminal)$"), ("compgraph", r"^CompressFromGraph::|^Node::(len|data)$")],
+    "verus": [("compress", None), ("buildstep", r"^CompressFromHash::(left_step|right_step|left_terminal|right_terminal)$"),
+              ("buildnode", BUILDNODE_FNS), ("compgraph", COMPGRAPH_FNS)],
     "bounded": lambda tier: [],
     "design_ref": "DESIGN.md §6 C02",
     "undecided": [
         "the global converse (a step refused only because the neighbour is no longer available is a legitimate boundary) and hence 'no two output nodes could be merged'; uniqueness of the decomposition",
-        "build_node / compress_kmers assembling the walked path into exactly one node: the two path loops of build_node are under contract step by step (each step adds exactly the oriented first/last base of its k-mer and folds exactly that k-mer's payload: unit buildstep; node level: compgraph left_node_step / right_node_step), and so are the two terminal-extension matches (left_terminal / right_terminal: the far extension set is complemented exactly when the walk ended on the opposite strand; rules R15 + R16); the loops over the path and compress_kmers' outer loop are not - see C01",
+        "k-mer level, whole run (unit buildnode): 'only if' IS a postcondition of the real compress_kmers - consecutive k-mers of every output node are joined by a link that is the sole extension on both facing sides, between k-mers that are not their own reverse complement (unstranded), accepted by the join predicate (step_rec inside graph_post), and both walks of every node stopped only where the link predicate failed w.r.t. the k-mers still available (build_post); the 'if' direction as a whole-run statement (a walk refused only because the neighbour was already placed is a legitimate boundary, hence no two output nodes could be merged) needs extension symmetry of the input and is not decided",
         "node level (CompressFromGraph): try_extend_node is proved sound in both directions relative to the link that find_link resolves (Unique only along an acceptable link, Terminal only if the node may not leave or the resolved link is not acceptable); the lookup result itself is only specified relationally (link_post)"],
     "trust": VERUS_TRUST + GRAPH_TRUST + [SEAM_NOTE,
         "CompressionSpec::join_test / reduce are deterministic functions of their arguments (join_spec, reduce_spec)",
@@ -341,13 +347,16 @@ PROPS["C09"] = {
     "title": "Graph re-compression and node censoring are exact",
     "kani": lambda tier: exts(["x_set", "x_has_ext"]),
     "verus": [("graphfn", r"^DebruijnGraph::(fix_exts|get_valid_exts|find_link|search_kmer|get_node|len)$|^Node::"),
-              ("compgraph", r"^CompressFromGraph::|^Node::(len|data)$")],
+              ("compgraph", COMPGRAPH_FNS)],
     "bounded": lambda tier: [],
     "design_ref": "DESIGN.md §6 C09",
-    "undecided": ["k-mer set of the result == k-mers of non-censored nodes; maximality; idempotence; agreement with the direct route - all need sequence_of_path / the global invariant; payload fold only step-wise (left_node_step / right_node_step: each step folds exactly the walked node's payload and records it on the proper end with the proper orientation)"],
+    "undecided": [
+        "k-mer level content of the result: the sequence of an output node is only known as 'what DebruijnGraph::sequence_of_path spells for its node path' (path_seq_of: enumerate + reference patterns are outside the Verus subset; assumed contract, spelled sequence abstract), so 'k-mers of the result == k-mers of the non-censored nodes' is decided at NODE granularity only",
+        "maximality of the merged paths as a whole-run statement, idempotence, agreement with the direct route; the link facts of each walk step (try_extend_node's Unique postcondition) are not yet carried through extend_node's path",
+        "BaseGraph::finish (parallel boomphf index construction) and the closing debug_assert!(is_compressed) are outside the Verus subset; the final fix_exts(None) is covered by fix_exts' own contract"],
     "trust": VERUS_TRUST + GRAPH_TRUST + [SEAM_NOTE],
-    "level_text": "Partial claim: (1) the two pruning calls of compress_graph - fix_exts(Some(&available)) and fix_exts(None) - are proved to leave no extension pointing at a censored/removed node or at no node, and to drop nothing else; (2) CompressFromGraph::try_extend_node is proved panic-free under exactly the state fix_exts establishes (every extension resolves; available targets list an extension back) and to return Unique only along a link that find_link resolves to an available, non-palindromic, join-accepted node with a sole facing extension - naming the target, the continuation side and the far extensions - and Terminal otherwise; (3) extend_node is proved to terminate, to take exactly the start node and the walked nodes out of the available set and never to visit a node twice (Verus, unbounded, real bodies).",
-    "level_note": "Partial claim; everything about the re-compressed node SET itself (k-mer set, maximality, payload fold, idempotence) is listed in undecided_clauses. Trusted: Verus/Z3, extractor rules, abstract BoomHashMap/BitSet contracts, the V<->K seam.",
+    "level_text": "NODE-LEVEL whole-run statement as a machine-checked postcondition of the real compress_graph up to (not including) finish() (Verus, unbounded; wrapper compress_graph_core around the statement range, rule R15; ncompress_post in verus/units/compgraph.rs.tmpl): there is an assignment of old-graph nodes to (output node, position) such that every output node is a non-empty path of pairwise different SURVIVING nodes (not censored), no old node lies on two paths or twice on one, EVERY surviving node lies on some path, each output sequence is what sequence_of_path spells for that path, and each output payload is the caller's reduction folded over exactly the payloads of the path's nodes (seed first, then leftwards, then rightwards). Underneath, all on real bodies: the availability loops (all nodes minus the censor list), fix_exts(Some(&available)) (exact pruning: no extension left pointing at a censored or absent node, nothing else dropped) and the lemma that after it every listed extension resolves; the WHOLE of the node-level build_node (both walks, both assembly loops, terminal extensions; rules R16/R17); extend_node (terminates, takes exactly the start node and the walked nodes out of the available set, returns the last node's far extensions); try_extend_node (panic-free, Unique only along a link that find_link resolves to an available, non-palindromic, join-accepted node with a sole facing extension; Terminal otherwise); BaseGraph::new/add.",
+    "level_note": "Hypothesis (stated in the contract where it is used, sym_hyp): in the pruned graph a link between two surviving nodes is listed from both ends - without it try_extend_node's panic!(\"unreachable\") is reachable. Assumed: BoomHashMap end indices (graph well-formedness), BitSet, sequence_of_path (abstract), PackedDnaStringSet::add and iteration over &DnaString, D::clone via vstd `cloned`, the Kmer seam. Everything at k-mer granularity is listed under undecided_clauses.",
 }
 
 PROPS["C08"] = {
